@@ -14,7 +14,7 @@ META = {
               "find_minimal_distance replaced by an ite-merged summary translated from its current source"],
 }
 
-STEPS = {"s6": [6], "s4": [4], "s64": [6, 4], "s46": [4, 6], "s128": [12, 8], "s32": [3, 2], "default": None}
+STEPS = {"s8812": [8, 8, 12], "s6": [6], "s4": [4], "s64": [6, 4], "s46": [4, 6], "s128": [12, 8], "s32": [3, 2], "default": None}
 SHAPES = {
     "n1": ["W0", ("ON", 0), "W", ("OFF", 0), "W0"],
     "n2same": ["W0", ("ON", 0), "W", ("OFF", 0), "W0", ("ON", 1), "W", ("OFF", 1)],
@@ -123,6 +123,7 @@ def queries(tier, seed):
         qs.append(q_quantise("n2free", sn, 2 * max(STEPS[sn]) + 1))
         qs.append(q_quantise("n2sim", sn, 2 * max(STEPS[sn]) + 1))
     qs.append(q_quantise("n2simw", "s6", 5))
+    qs.append(q_quantise("n1", "s8812", 26))       # a step list that repeats a value
     qs.append(q_quantise("n1", "default", 13))
     if tier == "thorough":
         for sn in ("s6", "s4"):
